@@ -76,6 +76,22 @@ StreamNext ==
     /\ Emit([op |-> "kahan.program", ty |-> "f32", nreg |-> 8, steps |-> FoldProg(Rep)])
     \* long folds of small partial registers with inexact partial sums: the accumulator as the left
     \* (lfold) and as the right (rfold) operand of the merge - any merge order must keep the bound
+    \* the same with the by-value operator `+`, and with negative sums
+    /\ \A ty \in {"f32", "f64"} : \A dir \in {"lfold_plus", "rfold_plus", "lfold", "rfold"} :
+         /\ Emit([op |-> "kahan.program", ty |-> ty, nreg |-> 1,
+                  steps |-> << [a |-> dir, r |-> 1, xs |-> <<V(-13421773, -27), V(-13421773, -27)>>, rep |-> (IF Thorough THEN 1000000 ELSE 100000)] >>])
+         /\ (dir \in {"lfold_plus", "rfold_plus"}) =>
+               Emit([op |-> "kahan.program", ty |-> ty, nreg |-> 1,
+                     steps |-> << [a |-> dir, r |-> 1, xs |-> <<V(13421773, -27), V(13421773, -27), V(13421773, -27)>>, rep |-> (IF Thorough THEN 1000000 ELSE 100000)] >>])
+    \* tiny but normal magnitudes (the error term of one addition is then subnormal), negative streams
+    /\ Emit([op |-> "kahan.program", ty |-> "f32", nreg |-> 1,
+             steps |-> << [a |-> "add_block", r |-> 1, x |-> V(9227469, -146), rep |-> Rep] >>])
+    /\ Emit([op |-> "kahan.program", ty |-> "f64", nreg |-> 1,
+             steps |-> << [a |-> "add_block", r |-> 1, x |-> V(9227469, -1040), rep |-> Rep64] >>])
+    /\ Emit([op |-> "kahan.program", ty |-> "f32", nreg |-> 1,
+             steps |-> << [a |-> "add_block", r |-> 1, x |-> V(-9227469, -23), rep |-> Rep] >>])
+    /\ Emit([op |-> "kahan.program", ty |-> "f32", nreg |-> 1,
+             steps |-> << [a |-> "add_cycle", r |-> 1, xs |-> <<V(-5, -3), V(-1001, 0), V(3, -6)>>, rep |-> Rep \div 3] >>])
     /\ \A ty \in {"f32", "f64"} : \A dir \in {"lfold", "rfold"} : \A m \in {1000, IF Thorough THEN 1000000 ELSE 100000} :
          /\ Emit([op |-> "kahan.program", ty |-> ty, nreg |-> 1,
                   steps |-> << [a |-> dir, r |-> 1, xs |-> <<V(13421773, -27), V(13421773, -27), V(13421773, -27)>>, rep |-> m] >>])
